@@ -3,7 +3,8 @@
 (* C18 code -> spec: vectors recorded from the real code, one JSON object  *)
 (* per line, judged against Compress.tla.                                  *)
 (*  k = "enc"   alg body enc err panic     real Compressor.Encode(body)    *)
-(*  k = "dec"   alg stream out err panic   real Compressor.Decode(stream)  *)
+(*  k = "dec"   alg stream out outlen err panic   real Decode(stream); out *)
+(*              holds at most the first 8192 bytes, outlen the full length *)
 (*              (cls: how the stream was made, informational)              *)
 (*  k = "frame" alg op flags wire logical  a request built by the real     *)
 (*              framer with compressor alg ("" = none); logical = the body *)
@@ -42,7 +43,7 @@ Kinds(r) ==
     [] r.k = "dec" ->
          LET st == RefDecode(r.alg, r.stream, TRUE)
              le == RefDecode(r.alg, r.stream, FALSE)
-         IN IF ~IsErr(st) THEN chk(r.err = "", "valid-stream-rejected") \o chk(r.err # "" \/ r.out = st, "valid-stream-wrong-output")
+         IN IF ~IsErr(st) THEN chk(r.err = "", "valid-stream-rejected") \o chk(r.err # "" \/ (r.out = st /\ r.outlen = Len(st)), "valid-stream-wrong-output")
             ELSE IF IsErr(le) THEN chk(r.err # "", "corrupt-stream-accepted:" \o Reason(le))
             ELSE <<>>
     [] r.k = "frame" ->
